@@ -304,7 +304,9 @@ func c19Faithful(c *core.Ctx) {
 		// argument names with inner word boundaries, inner capitals and non-ASCII letters: only the
 		// first letter is case-insensitive
 		var exotic []c19Arg
-		for _, n := range []string{"max-size", "Max-size", "max-Size", "a.b", "a.B", "a/b", "x y", "é", "éa", "Éa", "_x", "9x", " x", "x ", " required"} {
+		for _, n := range []string{"max-size", "Max-size", "max-Size", "a.b", "a.B", "a/b", "x y", "é", "éa", "Éa", "_x", "9x", " x", "x ", " required",
+			// letters whose upper-case form is encoded with another number of bytes (shorter, longer), also as one-letter names
+			"ıd", "ſx", "ⱥb", "ɐb", "ɐc", "ɐ", "ı"} {
 			exotic = append(exotic, c19Arg{Name: n, Bare: true}, c19Arg{Name: n, Vals: []string{"v"}}, c19Arg{Name: n, Vals: []string{"false"}})
 		}
 		for _, value := range []string{"", "v"} {
